@@ -47,25 +47,25 @@ def vf_choose(ex, st, args, ins):
 
 @builtin('vf_pick')
 def vf_pick(ex, st, args, ins):
-    """like vf_choose but the path is split over the concrete values at once"""
-    v = _last_pick(ex, st, ins)
-    if v is not None: return v
-    n = args[0]
-    if not isinstance(n, int): n = ex.concretize(st, n, 32, 'pick-n')
-    v = ex.fresh(st, 'pick%d' % n, 32)
-    if isinstance(v, int):
-        if v >= n: raise _PathEnd('assume')
-        return v
-    _assume(ex, st, z3.ULT(v, z3.BitVecVal(n, 32)))
-    st.ghost['pick'] = (id(ins), len(st.inputs), v)
-    return ex.concretize(st, v, 32, 'pick')
-
-def _last_pick(ex, st, ins):
-    # a sibling created by concretize() re-executes the call: reuse the symbol instead of making a new one
+    """value in [0,n): the path is split per concrete value at once (no solver call: every value is feasible)"""
     p = st.ghost.get('pick')
     if p is not None and p[0] == id(ins) and p[1] == len(st.inputs):
-        return ex.concretize(st, p[2], 32, 'pick')
-    return None
+        st.ghost.pop('pick', None)          # sibling re-executing the call: take the value assigned at the fork
+        st.inputs.append(('pick', p[2]))
+        return p[2]
+    n = args[0]
+    if not isinstance(n, int): n = ex.concretize(st, n, 32, 'pick-n')
+    if ex.replay is not None:
+        v = ex.fresh(st, 'pick', 32)
+        if v >= n: raise _PathEnd('assume')
+        return v
+    if n == 0: raise _PathEnd('assume')
+    k = len(st.inputs)
+    for i in range(n - 1, 0, -1):
+        sib = st.fork(); sib.ghost['pick'] = (id(ins), k, i); sib.decisions.append(('pick', i))
+        ex.push_state(sib)
+    st.inputs.append(('pick', 0))
+    return 0
 
 @builtin('vf_range')
 def vf_range(ex, st, args, ins):
